@@ -1,4 +1,4 @@
-HOOK_COMMITS = ["6a4fe2f", "36f6cc7", "cb89a57", "5b9f00f", "af3290e", "87a81aa", "8a013b9", "6218c92", "b1059ad"]
+HOOK_COMMITS = ["6a4fe2f", "36f6cc7", "cb89a57", "5b9f00f", "af3290e", "87a81aa", "8a013b9", "6218c92", "b1059ad", "702e1dd"]
 
 _NOTE = ("Trusted: Lean kernel; axioms propext/Quot.sound/Classical.choice only (audited each run); the hand-written model is tied "
          "to the code by the correspondence stream(s) and regenerated facts, so its reach is bounded by generator coverage "
